@@ -36,6 +36,7 @@ META = {
         "wsaccel absent (pure-Python validator)",
     ],
 }
+META["claim"] += " " + 'Also: long strings with an open multi-byte sequence ending at or next to k x 2^n, a run of whole ASCII blocks, then the continuation (validators with block-wise fast paths are not small DFAs); close reasons under codes 1000/1011/3000/4999.'
 
 
 def classify(data: bytes) -> str:
